@@ -947,6 +947,12 @@ func init() {
 		return htmlEscapeModel(ec, scalar(args[0]))
 	}
 	specModels["html.EscapeString"] = func(ec *evalCtx, a []Value) Value { return htmlEscapeModel(ec, scalar(a[0])) }
+	stdModels["html.UnescapeString"] = func(ec *evalCtx, call *ast.CallExpr, recv Value, args []Value) Value {
+		return App("html.UnescapeString", SStr, scalar(args[0]))
+	}
+	specModels["strings.ReplaceAll"] = func(ec *evalCtx, a []Value) Value {
+		return App("strings.ReplaceAll", SStr, scalar(a[0]), scalar(a[1]), scalar(a[2]))
+	}
 	specModels["html.UnescapeString"] = func(ec *evalCtx, a []Value) Value { return App("html.UnescapeString", SStr, scalar(a[0])) }
 	stdModels["errors.Join"] = func(ec *evalCtx, call *ast.CallExpr, recv Value, args []Value) Value {
 		// nil iff every argument is nil; deterministic in its argument for literal lists
